@@ -72,6 +72,21 @@ def _dynamic_confirm():
             return {"sequence": "service(A); service(B); service(A) with the same model", "observed": "result for A differs from A alone"}
         if r1.model_dump_json() != j1:
             return {"sequence": "service(A); service(B); service(A)", "observed": "an earlier result was altered by a later call"}
+        for how in ("same_model_reused", "dictionary_of_validated_records"):
+            for name in ("generic_tree", "two_zones"):
+                alone = main.pinch_analysis_service(_mk(name), project_name="Site").model_dump_json()
+                arg = _as(how, _mk(name))
+                before = _snap(how, arg)
+                try:
+                    a = main.pinch_analysis_service(arg, project_name="Site").model_dump_json()
+                    changed = _snap(how, arg) != before
+                    b = main.pinch_analysis_service(arg, project_name="Site").model_dump_json()
+                except Exception as e:
+                    return {"sequence": f"service(A); service(A) with A = '{name}' given as {how}", "observed": f"{type(e).__name__}: {e}"}
+                if changed:
+                    return {"sequence": f"service(A) with A = '{name}' given as {how}", "observed": "the caller's input object was modified"}
+                if a != alone or b != alone:
+                    return {"sequence": f"service(A); service(A) with A = '{name}' given as {how}", "observed": "result differs from A alone"}
     except Exception as e:   # pragma: no cover
         return {"sequence": "dynamic replay", "observed": f"{type(e).__name__}: {e}"}
     return None
@@ -152,35 +167,65 @@ def _frame_runner(kind):
     return run
 
 
-POOL = ["two_zones", "only_hot", "zero_contribution", "nested_labels"]
+POOL = ["two_zones", "only_hot", "zero_contribution", "nested_labels", "generic_tree"]
+HOW = ["dictionary", "validated_model", "same_model_reused", "dictionary_of_validated_records"]
+
+
+def _mk(name):
+    """A request as plain JSON-like data; 'generic_tree' carries a three-level zone tree of generic 'Zone' nodes."""
+    if name == "generic_tree":
+        p = C14._problem("two_zones", "needed", {})
+        for s, z in zip(p["streams"], ("A/U1", "B", "U1")):
+            s["zone"] = z
+        p["zone_tree"] = copy.deepcopy(C14.TREES["generic_three_levels"])
+        return p
+    return C14._problem(name, "needed", {})
+
+
+def _as(how, p):
+    if how == "dictionary":
+        return p
+    if how == "dictionary_of_validated_records":
+        m = TargetInput.model_validate(p)
+        d = {"streams": list(m.streams), "utilities": list(m.utilities), "options": m.options}
+        if m.zone_tree is not None:
+            d["zone_tree"] = m.zone_tree
+        return d
+    return TargetInput.model_validate(p)
+
+
+def _snap(how, arg):
+    if how == "dictionary":
+        return copy.deepcopy(arg)
+    if how == "dictionary_of_validated_records":
+        return json.dumps({k: ([x.model_dump() for x in v] if isinstance(v, list) else (v.model_dump() if hasattr(v, "model_dump") else v)) for k, v in arg.items()}, default=str, sort_keys=True)
+    return arg.model_dump_json()
 
 
 def ob_sequences(h):
-    how = h.choice("input_given_as", ["dictionary", "validated_model", "same_model_reused"])
+    how = h.choice("input_given_as", HOW)
     seq = [h.choice("first", POOL), h.choice("second", POOL)]
     target = h.choice("then", POOL)
+    reuse = how in ("same_model_reused", "dictionary_of_validated_records")
     with native():
-        mk = lambda name: C14._problem(name, "needed", {})
-        alone = main.pinch_analysis_service(mk(target), project_name="Site").model_dump_json()
+        alone = main.pinch_analysis_service(_mk(target), project_name="Site").model_dump_json()
         earlier = []
         snapshot = _module_state()
-        reused = TargetInput.model_validate(mk(target))
+        reused = _as(how, _mk(target)) if reuse else None
         for name in seq:
-            arg = mk(name)
-            if how != "dictionary":
-                arg = TargetInput.model_validate(arg)
-            before = copy.deepcopy(arg) if how == "dictionary" else arg.model_dump_json()
+            arg = _as(how, _mk(name))
+            before = _snap(how, arg)
             r = main.pinch_analysis_service(arg, project_name="Site")
             earlier.append((r, r.model_dump_json()))
-            h.check("input_object_left_unchanged", (arg == before) if how == "dictionary" else (arg.model_dump_json() == before))
-        if how == "same_model_reused":
+            h.check("input_object_left_unchanged", _snap(how, arg) == before)
+        if reuse:
             main.pinch_analysis_service(reused, project_name="Site")
-        arg = reused if how == "same_model_reused" else (mk(target) if how == "dictionary" else TargetInput.model_validate(mk(target)))
-        before = copy.deepcopy(arg) if how == "dictionary" else arg.model_dump_json()
+        arg = reused if reuse else _as(how, _mk(target))
+        before = _snap(how, arg)
         out = main.pinch_analysis_service(arg, project_name="Site")
         h.check("result_equals_result_of_a_fresh_run", out.model_dump_json() == alone)
         h.check("graph_entries_are_those_of_this_problem_only", set(out.graphs) == set(json.loads(alone)["graphs"]))
-        h.check("input_object_left_unchanged", (arg == before) if how == "dictionary" else (arg.model_dump_json() == before))
+        h.check("input_object_left_unchanged", _snap(how, arg) == before)
         h.check("earlier_results_not_altered", all(r.model_dump_json() == j for r, j in earlier))
         h.check("module_state_unchanged", _module_state() == snapshot)
 
@@ -209,9 +254,9 @@ def obligations():
         Obligation("C11.determinism", None, kind="frame", functions=fs, runner=_frame_runner("determinism"), doc="DETERMINISM (syntactic scan of the reachable functions)"),
     ]
     base = Obligation("C11.sequences.b", ob_sequences, kind="smallscope", functions=fs, max_paths=100000, time_budget_s=900,
-                      bound=f"every sequence of two problems from a pool of {len(POOL)} followed by a third, input as dictionary / model / same model reused (exhaustive)",
+                      bound=f"every sequence of two problems from a pool of {len(POOL)} followed by a third, input as dictionary / model / same model reused / dictionary holding validated records, reused (exhaustive)",
                       doc="SEQUENCES")
-    obs += split(base, input_given_as=["dictionary", "validated_model", "same_model_reused"], then=POOL)
+    obs += split(base, input_given_as=HOW, then=POOL)
     for o in C16.obligations():
         if o.name == "C16.wrapper.b":
             obs.append(Obligation("C11.cache.b", o.fn, kind=o.kind, bound=o.bound, functions=o.functions, stubs=o.stubs, doc="CACHE (shared with C16)"))
